@@ -692,6 +692,8 @@ BIND_STATEMENTS = [
     ("comment", "on_table", "comment on table t is {p}", ["c"], {}),
     ("comment", "alter_set", "alter table t set comment = {p}", ["c"], {}),
     ("create_table", "default", "create table n1 (a int default {p})", [1], {}),
+    # a no-op'd statement (connection with nop_regexes) carrying a value
+    ("nop", "call", "call my_proc({p}, {p})", [1, "a"], dict(nop=True)),
 ]
 # (style, paramstyle of the connection, placeholder of bind i, parameter object of the values); numeric (:1) binds are
 # not accepted by fakesnow at all and are left out
@@ -1374,10 +1376,15 @@ def run_history(h, kind):
                 ref.execute(last[1])
             else:
                 ref.execute(last[1], last[3])
-            out["ref_desc"] = _meta(ref.description)
-            out["ref_rows"] = ref.fetchall()
         except Exception as e:  # noqa: BLE001
             out["ref_err"] = _err(e)
+            return out
+        # a reference cursor that cannot be described gives nothing to compare with; the history itself was executed
+        # and is judged on its own (C06.available, the entries against rows and model)
+        with contextlib.suppress(Exception):
+            out["ref_desc"] = _meta(ref.description)
+        with contextlib.suppress(Exception):
+            out["ref_rows"] = ref.fetchall()
     finally:
         _close(fs)
     return out
@@ -1416,8 +1423,8 @@ def judge_history(h, rt, rd):
                 res.append(("C06.names", True, {"description": names, "select_list_names": h["names"]}))
         if "ref_desc" in rt:
             is_q = last[1].lstrip().lower().startswith(("select", "with"))
-            bad = desc != rt["ref_desc"] or (is_q and not _rows_equal(rows, rt["ref_rows"], False))
-            res.append((cmp_clause, bad, {"cursor_under_test": _short(desc), "fresh_cursor": _short(rt["ref_desc"]), "rows": rows[:2], "fresh_rows": rt["ref_rows"][:2],
+            bad = desc != rt["ref_desc"] or (is_q and "ref_rows" in rt and not _rows_equal(rows, rt["ref_rows"], False))
+            res.append((cmp_clause, bad, {"cursor_under_test": _short(desc), "fresh_cursor": _short(rt["ref_desc"]), "rows": rows[:2], "fresh_rows": rt.get("ref_rows", [])[:2],
                                           "caller_object_now": rt["caller_object"]} if bad else None))
     if "desc" in rd and "ref_desc" in rd:
         bad = rd["desc"] != rd["ref_desc"]
